@@ -159,8 +159,7 @@ def run(ctx):
     if q:
         exh = [("gst-exh-q", dict(kind=KINDS[0], max_req=2, ops=NOSHUT))]
     else:
-        exh = [("gst-exh-3", dict(kind=KINDS[0], max_req=3, ops=NOSHUT)), ("gst-exh-q1", dict(kind=KINDS[0], max_req=2, req_peers=("P", "Q"))), ("gst-exh-q2", dict(kind=KINDS[1], max_req=2)),
-               ("gst-exh-q3", dict(kind=KINDS[2], max_req=2)), ("gst-exh-q4", dict(kind=KINDS[3], max_req=2))]
+        exh = [("gst-exh-3", dict(kind=KINDS[0], max_req=3, ops=NOSHUT)), ("gst-exh-q1", dict(kind=KINDS[0], max_req=2, req_peers=("P", "Q"))), ("gst-exh-q2", dict(kind=KINDS[3], max_req=2))]
     fe = [pool.submit(model_check, ctx, n, **kw) for n, kw in exh]
     fc = pool.submit(consumer_cex, ctx)
     # 2. behaviours
